@@ -339,6 +339,25 @@ struct Drv
         }
         for(size_t i = 0; i < mel.size(); i++) M.mel[mel[i].num] = mel[i];
         for(size_t i = 0; i < perc.size(); i++) M.perc[perc[i].num] = perc[i];
+        // some layouts lose banks again before the history starts: a removed bank "does not exist" for the fallback chain
+        if(r.chance(0.4))
+            for(int t = 0, n = r.range(1, 3); t < n; t++)
+            {
+                bool perc_side = r.chance(0.4);
+                std::map<unsigned, MBank> &side = perc_side ? M.perc : M.mel;
+                if(side.empty()) continue;
+                std::map<unsigned, MBank>::iterator it = side.begin(); std::advance(it, (long)r.below((uint32_t)side.size()));
+                unsigned num = it->first;
+                if(perc_side && (num & 255) > 127) continue;
+                OPN2_BankId id; id.percussive = perc_side ? 1 : 0; id.msb = (uint8_t)(num >> 8); id.lsb = (uint8_t)(num & 255);
+                OPN2_Bank bk; memset(&bk, 0, sizeof(bk)); int rc = -1;
+                API("opn2_getBank", rc = opn2_getBank(dev, &id, 0, &bk));
+                if(rc != 0) { c.violation("oracle:C12:installed-bank-not-found", vfmt("opn2_getBank does not find installed %s bank %u/%u", perc_side ? "percussion" : "melodic", num >> 8, num & 255)); return false; }
+                API("opn2_removeBank", rc = opn2_removeBank(dev, &bk));
+                if(rc != 0) { c.violation("oracle:C12:bank-removal-failed", vfmt("opn2_removeBank failed for %s bank %u/%u", perc_side ? "percussion" : "melodic", num >> 8, num & 255)); return false; }
+                side.erase(it);
+                count("banks_removed_before_the_history");
+            }
         return true;
     }
 
